@@ -144,6 +144,9 @@ void Basic_Player::step_event()
 				// Pop old position
 				track = stack_top(Player_Stack::JUMP).track;
 				position = stack_pop(Player_Stack::JUMP).position;
+				// errors raised after the return (e.g. at the end of the calling
+				// track) belong to the calling command, not to the subroutine
+				reference = track->get_event(position - 1).reference;
 			}
 			else
 			{
